@@ -93,6 +93,63 @@ pub fn rem_f64_const(form: u8, b: i32, d: i32, kx: i32) {
     reached();
 }
 
+/// Remainder forms with a concrete double-double divisor b = (m, +-2^-j) whose low word is non-zero, and a
+/// small integer dividend a (|a| < 2^bits, both signs): a/b is never within 2^-98 of an integer, so k must be
+/// exactly trunc(a/b). form: 0 f64 % TwoFloat, 1 TwoFloat % TwoFloat, 2 %=, 3 rem_euclid, 4 div_euclid
+pub fn rem_dw_const(form: u8, m: u32, j: u32, lo_neg: bool, bits: u32) {
+    let n = any_i64();
+    let k = any_u64();
+    assume(n > -(1i64 << bits) && n < (1i64 << bits));
+    assume(k < (1u64 << 20));
+    let bl = if lo_neg { -pow2(-(j as i32)) } else { pow2(-(j as i32)) };
+    let b = tf(m as f64, bl);
+    let a = tf(n as f64, 0.0);
+    let r = match form {
+        0 => (n as f64) % b,
+        1 => a % b,
+        2 => {
+            let mut t = a;
+            t %= b;
+            t
+        }
+        3 => a.rem_euclid(b),
+        _ => a.div_euclid(b),
+    };
+    assert!(spec_valid(r));
+    const F: u32 = 400;
+    let one = B::from_shl(1, F).unwrap();
+    let eps = B::from_shl(1, F - j).unwrap();
+    let vb = if lo_neg { times_b(one, m).sub(eps) } else { times_b(one, m).add(eps) };
+    let kk = B::from_shl(k as u128, F).unwrap();
+    let keps = kk.shr(j);
+    let kb = if lo_neg { times_b(kk, m).sub(keps) } else { times_b(kk, m).add(keps) };
+    let ma = B::from_shl(n.unsigned_abs() as u128, F).unwrap();
+    assume(kb.ule(ma) && ma.ult(kb.add(vb))); // k = floor(|a| / b)
+    let rem_mag = ma.sub(kb);
+    let neg = n < 0;
+    let got = sc2(r.hi(), r.lo(), -(F as i32));
+    assert!(got.is_some());
+    let got = got.unwrap();
+    let mx = if ma.ult(vb) { vb } else { ma };
+    match form {
+        0 | 1 | 2 => {
+            let want = if neg { rem_mag.neg() } else { rem_mag };
+            assert!(within(got.sub(want), mx, 102, |v| v));
+        }
+        3 => {
+            // least non-negative remainder
+            let want = if neg && !rem_mag.is_zero() { vb.sub(rem_mag) } else { rem_mag };
+            assert!(within(got.sub(want), mx, 102, |v| v));
+        }
+        _ => {
+            // floor(a/b) for b > 0, exactly
+            let q = if neg && !rem_mag.is_zero() { kk.add(one).neg() } else if neg { kk.neg() } else { kk };
+            assert!(got == q);
+        }
+    }
+    reached();
+}
+
 // ------------------------------------------------------------------------------------ twin
 
 fn div_euclid_mutant(a: TwoFloat, b: TwoFloat) -> TwoFloat {
